@@ -1538,6 +1538,8 @@ def translate_entry(ent):
     eff = ent["_effects"] = set()
     def note(sym_, selfv_, ret_):
         eff.update(sym_.effects)
+        oc_ = getattr(sym_, "opcount", {})
+        if oc_: eff.add("sample arithmetic evaluated on one path: " + " ".join("%s x%d" % (k_, oc_[k_]) for k_ in sorted(oc_)))
         # which value is the clone only matters for the pass-through components (sources, pipes, the caching wrappers): they hand on
         # the caller's items themselves; the numeric filters compute new values from theirs
         if ent.get("pid") in ("C01", "C10") or ent["name"].startswith("cache_") or ent["name"].startswith("unit_"):
